@@ -75,7 +75,7 @@ struct VpOp {
     const char* name;
     uint8_t vk[VP_NOPER];
     uint8_t sk[VP_NSCAL];
-    uint32_t weight;      // relative number of random cases (0 = default 1)
+    uint32_t weight;      // relative number of random cases (0 = default 1); 1000 + k = exactly k random cases (expensive operations)
 };
 
 struct VpTarget {
